@@ -54,6 +54,12 @@ func runC20(c *core.Ctx) *core.Outcome {
 	cfg.SetSession = t.Chance(1, 2)
 	cfg.CacheSize = 0
 	cfg.First = t.Chance(1, 3)
+	if t.Chance(1, 4) {
+		// gateway policy: the session's persister is kept between requests (an engine per request all the same)
+		cfg.KeepPersister = true
+		cfg.SessionViaStore = t.Chance(1, 2)
+		o.Probes["run_with_kept_persister"]++
+	}
 	cfg.ResetOnEmpty = t.Chance(1, 4) // only exercised while the session is blocked: the model does not know the option
 	if cfg.OutputSize > 0 && cfg.OutputSize < 60 {
 		cfg.OutputSize = 0
@@ -115,6 +121,12 @@ func runC20(c *core.Ctx) *core.Outcome {
 			// client code clears TERMINATE in the stored session; nothing is asserted afterwards
 			clearTerminate(r)
 			o.Probes["terminate_cleared_by_harness"]++
+			// ... nothing but this: "until the flag is cleared" - the next request is served again
+			st := r.s.Request(in, true)
+			o.Counts["requests"]++
+			if st.Panic == "" && !(st.Cont || st.Out != "" || len(st.Moves) > 0 || st.Calls > 0 || st.Funcs > 0 || st.ExecErr != "") {
+				return finishModel(o, c, r).Fail("still-blocked-after-flag-cleared", i, nil, "request %d input %s arrived after client code had cleared TERMINATE in the stored session (through a store handle and persister of its own): cont=%v, no output, no code fetch, no external call - the session is still blocked", i, short(string(in)), st.Cont)
+			}
 			break
 		}
 		if wrFault && !wasBlocked && !tplFault {
